@@ -282,3 +282,35 @@ def compliant_frame_rejected(case, il, sl, sig):
     if v and v[1] == "c07-table" and v[0].startswith("legal frame"):
         return (v[0] + ": a compliant frame ended the connection", sig)
     return None
+
+
+def shared_ids(tr, sig):
+    """No two open channels ever share an id: an id is handed out again only after a Channel.Close /
+    Channel.CloseOk for it has been processed (or the connection has gone down)."""
+    import refmon
+    closes = {}          # op index -> set of channel ids closed by frames of that op
+    for k, _hx, dec in refmon.received_frames(tr):
+        if dec and dec[0] == "method":
+            ch, cls, mid = int(dec[1]), int(dec[2]), int(dec[3])
+            if cls == 20 and mid in (40, 41):
+                closes.setdefault(k, set()).add(ch)
+            if ch == 0 and cls == 10 and mid in (50, 51):
+                closes.setdefault(k, set()).add(-1)
+    live = {}            # id -> handle label
+    for k, (o, g) in enumerate(tr.al):
+        for ch in closes.get(k, ()):
+            if ch == -1:
+                live.clear()
+            else:
+                live.pop(ch, None)
+        if g and (g[0] == "dead" or any(l.startswith("res err") for l in g)):
+            break
+        t = o.split()
+        if t[0] == "alloc-rep" and g and g[0].startswith("alloc ok "):
+            n = int(g[0].split()[2])
+            if n in live:
+                return ("channel id %d was handed out to %s while channel %d (handle %s) is still open: two channels share an id" % (n, t[1], n, live[n]), sig)
+            if n == 0:
+                return ("channel id 0 was handed out", sig)
+            live[n] = t[1]
+    return None
